@@ -175,3 +175,145 @@ for _k in ["normal", "promotion", "enpassant", "castling_short", "castling_long"
     ob("push_contract_" + _k, "chess::verif_chess::push_contract_" + _k, ["C02"],
        f"forall game, {_k} move with shape pre + WF6: view(push(g,m)) == spec::apply(view(g), m); len+1; earlier entries kept; king cache kept",
        _FPUSH, timeout=900)
+
+# =================================================================================================
+# C03 -- take-back restores everything; queries change nothing
+# =================================================================================================
+prop("C03",
+     level="proof",
+     explanation="Contract pop(push(g,m),m) == g on every field (board, cached keys/scores, hash, score, king cache, side, stack length and "
+                 "entries, evaluation tables) for every symbolic game satisfying WF locally and every move of generated shape, including "
+                 "unchecked moves that capture a king; update_phase preserves WF2s (the cached scores stay consistent with the tables in "
+                 "force), so the precondition holds for games loaded in any phase; the legality filter of get_moves pairs every push "
+                 "with a pop of the same move (slice obligation shared with C01); &self queries cannot write (Rust's type system; the "
+                 "only interior mutability, piece_scores, is asserted unchanged). Nested play/take-back: induction on the same contract.",
+     assumptions=["state stack depth instantiated at 2", "score bound from the material bound (lemma score_tables_bounded)",
+                  "search code calls push/pop in matched pairs (read, A5)"])
+for _k in ["normal", "promotion", "enpassant", "castling_short", "castling_long"]:
+    ob("roundtrip_" + _k, "chess::verif_chess::roundtrip_" + _k, ["C03"],
+       f"forall game (WF locally), {_k} move of generated shape incl. king captures: pop(push(g,m),m) == g on all fields",
+       _FPUSH + ["Game::pop"], timeout=1800)
+
+_FSET = ["Game::set_position", "Piece::score", "Piece::hash", "Piece::as_index", "Position::as_usize", "Position::new_unsafe"]
+ob("set_position_contract", "chess::verif_chess::set_position_contract", ["C02", "C03", "C04", "C15", "C16"],
+   "forall game, square p, content: board/cached key/cached score at p become new/key(p,new)/sq_score(p,new); hash and score move by (old cached) -> (new); frame",
+   _FSET, timeout=600)
+for _k in ["normal", "promotion"]:
+    for _part, _txt in [("board", "board at any square, king cache, side, stack length and entries, tables"),
+                        ("keys", "cached square key at any square"), ("scores", "cached square score at any square")]:
+        ob(f"roundtrip_{_k}_{_part}", f"chess::verif_chess::roundtrip_{_k}_{_part}", ["C03"],
+           f"forall game (WF locally), {_k} move of generated shape incl. king captures: pop(push(g,m),m) restores {_txt}",
+           _FPUSH + ["Game::pop"], timeout=1200)
+    ob(f"roundtrip_{_k}_score", f"chess::verif_chess::roundtrip_{_k}_score", ["C03"],
+       f"{_k}: pop(push(g,m),m) restores the score (direct, set_position inlined)", _FPUSH + ["Game::pop"], tier="thorough", timeout=2400)
+ob("roundtrip_promotion_hash", "chess::verif_chess::roundtrip_promotion_hash", ["C03"],
+   "promotion: pop(push(g,m),m) restores the hash (direct, set_position inlined)", _FPUSH + ["Game::pop"], tier="thorough", timeout=2400)
+# redefine the three cheap kinds registered above (full conjunction in one harness)
+OBS[:] = [o for o in OBS if o["name"] not in ("roundtrip_normal", "roundtrip_promotion")]
+for _k in ["normal", "promotion", "enpassant", "castling_short", "castling_long"]:
+    ob("delta_" + _k, "chess::verif_chess::delta_" + _k, ["C03", "C04", "C16"],
+       f"{_k}: with set_position replaced by its contract's board effect, push changes hash by side key ^ old state key ^ new state key only, "
+       "pop undoes it, neither touches score or caches (=> WF3/WF4 preserved, hash/score restored)",
+       ["Game::push", "Game::pop", "GameState::hash"], timeout=600)
+ob("update_phase_contract", "chess::verif_chess::update_phase_contract", ["C03", "C16"],
+   "forall game (WF1, WF2 at kings and any j), any is_endgame answer: cached scores consistent with the tables in force afterwards; score == SUM preserved; position/hash untouched",
+   ["Game::update_phase"], timeout=600, witness="chess::verif_chess::witness_d1_endgame_score_drift")
+ob("piece_score_is_table_value", "chess::piece::verif_piece::piece_score_is_table_value", ["C16", "C15"],
+   "Piece::score == spec sq_score for 12 pieces x 64 squares x 2 king tables; unchecked read in bounds", ["Piece::score", "Position::new_unsafe"], timeout=300)
+ob("piece_score_mirror_negates", "chess::piece::verif_piece::piece_score_mirror_negates", ["C16"],
+   "score(mirror piece, mirror square) == -score(piece, square)", ["Piece::score"], timeout=300)
+ob("score_tables_bounded", "chess::verif_chess::score_tables_bounded", ["C16", "C03", "C02"],
+   "table facts behind the i16 bound: promoted pawn <= queen; king spread + 9Q+2R+2B+2N <= SCORE_BOUND; SCORE_BOUND + Q + K <= 32767", ["scores.rs tables"], timeout=300)
+ob("piece_hash_is_published_key", "chess::piece::verif_piece::piece_hash_is_published_key", ["C04", "C15"],
+   "Piece::as_index/hash == key at offset 259+8*(12*sq+piece) for all 12 x 64; unchecked reads in bounds", ["Piece::hash", "Piece::as_index"], timeout=300)
+ob("gs_hash_is_published_key", "chess::gamestate::verif_gamestate::gs_hash_is_published_key", ["C04", "C15"],
+   "GameState::hash == key at offset 2+8*bits for all 256 bitfields; unchecked read in bounds", ["GameState::hash"], timeout=120)
+for _h in ["gs_accessors_and_setters", "gs_set_en_passant_in_range", "gs_default_is_no_rights_no_ep"]:
+    ob(_h, "chess::gamestate::verif_gamestate::" + _h, ["C02", "C04", "C15"],
+       "GameState bit layout: accessors read / setters write exactly their bit; set_en_passant(0..=8) keeps the castling nibble", ["GameState::*"], timeout=120)
+
+prop("C16",
+     level="proof",
+     explanation="score == SUM of piece-square values, as a representation invariant: Piece::score equals the specified table value on the "
+                 "full domain (and the mirrored piece the negated value); set_position's contract keeps cached value and running score in "
+                 "step (WF2s, WF4 locally, with frame); push/pop touch the score only through set_position (modular step); update_phase "
+                 "re-scores so that every cached value is consistent with the tables in force, i.e. both kings by the same table; i16 "
+                 "overflow excluded by the material bound lemma. Hence the score is a function of position and phase, not of the route.",
+     assumptions=["paper step: a sum of at most (1 king + 15 others) per side is bounded by the per-kind maxima (lemma score_tables_bounded gives the table facts)",
+                  "Game::new establishes WF2s/WF4 square by square (C17 scanner-step slice); the loop around it is glue"])
+
+ob("keys_tables_match_published_layout", "chess::verif_chess::keys_tables_match_published_layout", ["C04", "C05"],
+   "zobrist::{BLACK_TO_MOVE,EMPTY_PLACE,STATE[256],PIECE[64][12]} == little-endian u64 of zobrist_bytes.bin at offsets 0, 1, 2+8i, 259+8(12 sq+p)",
+   ["zobrist::get_random_nums", "zobrist consts"], timeout=600)
+ob("spec_start_position_hash", "chess::verif_chess::spec_start_position_hash", ["C04"],
+   "published keys of the start position combine to D9C54592621D7040", ["spec::hash_of"], timeout=300)
+ob("c05_square_keys_distinct", "chess::verif_chess::c05_square_keys_distinct", ["C05"],
+   "forall square, contents a != b (12 pieces + empty): the square's key differs", ["Piece::hash", "zobrist::EMPTY_PLACE"], timeout=600)
+ob("c05_state_and_side_keys_distinct", "chess::verif_chess::c05_state_and_side_keys_distinct", ["C05"],
+   "side key != 0; forall state bytes a != b with e.p. nibble <= 8: GameState::hash differs", ["GameState::hash", "zobrist::BLACK_TO_MOVE"], timeout=600)
+ob("native_start_hash_and_pairwise_xor", "chess::verif_chess::native_start_hash_and_pairwise_xor", ["C04", "C05"],
+   "TEST (native, concrete): Game::default().hash() == D9C54592621D7040; all 525825 pairwise XORs of the 1026 keys are distinct",
+   ["Game::new (whole function, concrete input)"], backend="native", complete=False, counts_as_proof=False,
+   bounded_note="concrete native run; whole Game::new is beyond CBMC")
+
+prop("C04",
+     level="proof",
+     explanation="hash(g) == XOR of published keys of view(g), as representation invariant WF2h+WF3: engine key constants equal the key-file "
+                 "entries at the published offsets (1026 equalities); Piece::hash / GameState::hash equal the published key on their full "
+                 "domains; set_position keeps (hash, cached key) in step with frame; push/pop touch the hash outside set_position only by side "
+                 "key and old/new state key (modular step against set_position's contract); so the invariant is preserved by every move and "
+                 "take-back and the hash is a function of the position alone, whatever the route. Start position == D9C54592621D7040 on the "
+                 "spec side (Kani) and on the real Game::default() (native test). Importer: scanner-step slice (C17) establishes the invariant.",
+     assumptions=["Game::new's loops around the scanner step and field parsers are glue (C17); the native start-position run is a test",
+                  "composition of the per-function contracts into `hash == spec hash of view` is the short argument of DESIGN.md section 4 (C04)"])
+prop("C05",
+     level="proof",
+     explanation="Given C04 (hash = XOR of per-feature keys), changing one feature changes the hash by key(sq,a)^key(sq,b), the side key, or "
+                 "state_key(s)^state_key(s'): proved non-zero for every square and content pair, the side key, and every pair of state bytes "
+                 "with a legal e.p. nibble. Two-feature differences: native exhaustive test over all pairwise XORs. Collision freedom among "
+                 "millions of explored positions is a statistical statement about a 64-bit hash and is NOT decided by any contract.",
+     assumptions=["C04's invariant", "collision freedom over explored sets is not claimed (only single-feature, and two-feature by native test)"],
+     not_machine_checked=["no collision among all positions explored by a search (statistical, not a contract)"])
+PROPS["C03"]["assumptions"].append("direct hash/score round trip for Normal/Promotion moves is also run with set_position inlined in the thorough tier where it fits (promotion: yes; normal hash: no result in 30 min)")
+
+# =================================================================================================
+# C01 -- generated moves are exactly the legal moves
+# =================================================================================================
+prop("C01",
+     level="proof",
+     slices=["verif_gen_body", "verif_filter_body"],
+     explanation="Components of Game::get_moves under contract, each for a fully symbolic board/state: is_targeted == the independent "
+                 "attack relation (one instance per queried square, 64); Piece::get_moves for each piece kind on each square emits exactly "
+                 "the geometrically valid moves of that piece (sound, complete, no repeats; castling against the is_targeted oracle, asking "
+                 "e,f,g / e,d,c for the mover); the generation-loop body calls the piece generator exactly for own pieces; the legality-filter "
+                 "loop body is push; is_targeted(king after push); pop, keeping the move iff the king is safe, with the not-in-check shortcut; "
+                 "shortcut lemma (a non-aligned non-king move cannot expose the king) proved from the rules alone. Quick tier runs all 64 "
+                 "is_targeted instances, both slices and a seeded subset of squares per generator family (exhaustive: false); thorough runs "
+                 "all squares. The loop glue of get_moves is NOT machine-checked (whole function out of CBMC's reach): native differential test.",
+     assumptions=["WF (one king each, king cache, WF6, WF7, no pawn on rank 1/8) as precondition; established by import (C17) and preserved by push (C02)",
+                  "composition of the component contracts into `list == legal moves` is the argument of DESIGN.md section 4 (C01)",
+                  "the 256-slot move buffer is never exceeded (A6: legal positions have < 256 pseudo-legal moves)"],
+     not_machine_checked=["get_moves loop headers, moves.clear(), king-missing exit, keep_index compaction and truncate (native differential test only)"])
+_FGEN = ["Piece::get_moves", "Piece::get_pawn_moves", "Piece::get_king_moves", "Piece::get_knight_moves", "Position::add", "Position::add_unsafe",
+         "Game::get_position", "Game::state", "GameState::en_passant", "GameState::*_castling"]
+ob("is_targeted_{i}", "chess::verif_chess::inst::is_targeted::sq{i}", ["C01"],
+   "forall board, player: is_targeted(sq, player) == spec::attacked(board, sq, other player)", ["Game::is_targeted", "Position::add", "Game::get_position"],
+   instances=SQ, timeout=600, mem_est_gb=3)
+for _fam, _txt, _n in [("gen_rook", "rook", 6), ("gen_bishop", "bishop", 6), ("gen_queen", "queen", 6), ("gen_knight", "knight", 6),
+                       ("gen_pawn", "pawn (incl. double push, promotions, e.p.)", 8), ("gen_king", "king (steps, both castlings vs is_targeted oracle)", 8)]:
+    ob(_fam + "_{i}", f"chess::verif_chess::inst::{_fam}::sq{{i}}", ["C01"],
+       f"forall board/state with a {_txt} of the side to move on sq: generated == geometrically valid moves (sound, complete, no repeats)",
+       _FGEN, instances=SQ, quick_instances=_n, quick_fixed=["00", "04", "12", "27", "52", "60", "63"][: _n - 2], timeout=900, mem_est_gb=3,
+       complete=True)
+ob("shortcut_lemma_{i}", "chess::verif_chess::inst::shortcut_lemma::sq{i}", ["C01"],
+   "rules only: king on sq not attacked, pseudo-legal non-king Normal move from a non-aligned square => king still not attacked",
+   ["spec (lemma used by the filter's shortcut)"], instances=SQ, quick_instances=8, quick_fixed=["00", "04", "27", "60"], timeout=600)
+ob("gen_body", "chess::verif_chess::inst::gen_body", ["C01"],
+   "slice verif_gen_body vs Piece::get_moves recorder: called exactly once with (piece on sq, sq) iff an own piece stands on sq", ["Game::get_moves (generation loop body)"], timeout=300)
+ob("filter_body", "chess::verif_chess::inst::filter_body", ["C01", "C03"],
+   "slice verif_filter_body vs abstract push/is_targeted/pop: shortcut => kept w/o calls; else push(m); is_targeted(king after push, mover); pop(m); kept iff safe",
+   ["Game::get_moves (legality filter loop body)"], timeout=600)
+ob("native_get_moves_matches_spec", "chess::verif_chess::moves::native_get_moves_matches_spec", ["C01", "C02"],
+   "TEST (native, concrete): whole get_moves(true/false) vs spec::legal, successor vs spec::apply, on the six perft roots to depth 2",
+   ["Game::get_moves (whole function, concrete inputs)"], backend="native", complete=False, counts_as_proof=False,
+   bounded_note="concrete native run of the glue; not a proof")
